@@ -143,6 +143,14 @@ type UseSite struct {
 	TONL   bool   // judged for @testonly (a call, or a listed kind of type use)
 	Core   bool
 	OnlyImporter bool // refers to the importing package's OWN unannotated item of the same name; skipped in d
+	Refs []UseRef // when set: several references on the line, in textual order (Kind/Type then describe the first)
+}
+
+// UseRef is one reference to an annotated item inside a site.
+type UseRef struct {
+	Kind UseKind
+	Type string // for UKType
+	Tag  string // only used to tell Reset from ResetP
 }
 
 func UseSites() []UseSite {
@@ -175,6 +183,15 @@ func UseSites() []UseSite {
 		{Tag: "shadow local Helper", Stmt: "func() { Helper := func() int { return 0 }; _ = Helper() }()", Kind: UKNone, TONL: true, Core: true},
 		{Tag: "shadow param Helper", Stmt: "func(Helper func() int) { _ = Helper() }(nil)", Kind: UKNone, TONL: true},
 		{Tag: "shadow field-func Reset()", Stmt: "struct{ Reset func() }{Reset: func() {}}.Reset()", Kind: UKNone, TONL: true},
+		// several uses nested inside one statement
+		{Tag: "nested HelperArg(Helper())", Stmt: "{q}HelperArg({q}Helper())", Kind: UKFunc, TONL: true, Core: true,
+			Refs: []UseRef{{Kind: UKFunc}, {Kind: UKFunc}}},
+		{Tag: "nested HelperArg(Mock2{})", Stmt: "{q}HelperArg({q}Mock2{})", Kind: UKFunc, TONL: true,
+			Refs: []UseRef{{Kind: UKFunc}, {Kind: UKType, Type: "Mock2"}}},
+		{Tag: "nested HelperArg(s.Reset)", Stmt: "{q}HelperArg(func() int { s.Reset(); return {q}Helper() }())", Kind: UKFunc, TONL: true,
+			Refs: []UseRef{{Kind: UKFunc}, {Kind: UKMethod, Tag: "Reset"}, {Kind: UKFunc}}},
+		{Tag: "nested use(Helper(), Mock{})", Stmt: "_ = []any{{q}Helper(), {q}Mock{}, {q}Helper()}", Kind: UKFunc, TONL: true,
+			Refs: []UseRef{{Kind: UKFunc}, {Kind: UKType, Type: "Mock"}, {Kind: UKFunc}}},
 		// the importing package's own, unannotated items that share the names of d's annotated ones
 		{Tag: "own Helper()", Stmt: "Helper()", Kind: UKNone, TONL: true, Core: true, OnlyImporter: true},
 		{Tag: "own Mock{}", Stmt: "_ = Mock{}", Kind: UKNone, TONL: true, OnlyImporter: true},
@@ -253,6 +270,7 @@ type UseBlock struct {
 	File  int   // 0 a.go, 1 b.go, 2 c_test.go
 	Stmts []int // indices into the site alphabet (only for enclosers with a body)
 	ID    int   // stable identity across layout transformations (0 = position in the history)
+	Trail string // optional trailing comment on the block's first statement / declaration-level site (travels with it)
 }
 
 func (b UseBlock) String() string {
@@ -293,6 +311,7 @@ type UseSiteInst struct {
 	FileNo int
 	Line   int
 	Exempt bool // inside a @testonly function/method of the using package
+	Refs   []UseRef
 }
 
 type UseRendered struct {
@@ -358,6 +377,10 @@ func usePreludeD(w *lineWriter, m UseMix) {
 		w.add("// Helper helps.")
 		m.ann(w, "", ItHelper)
 		w.add("func Helper() int { return 0 }")
+		w.add("")
+		w.add("// HelperArg takes an argument, so that other uses can be nested inside a call to it.")
+		m.ann(w, "", ItHelper)
+		w.add("func HelperArg(x any) int { return 0 }")
 		w.add("")
 		w.add("func PlainF() int { return 0 }")
 		w.add("")
@@ -489,8 +512,12 @@ func RenderUse(s *UseSpec) *UseRendered {
 		w := files[b.File]
 		pre(w, "")
 		rec := func(st *UseSite, tag string, kind UseKind, typ string, ord, line int) {
-			perFile[b.File] = append(perFile[b.File], UseSiteInst{Site: st, Tag: tag, Kind: kind, Type: typ, Block: bi, Ord: ord,
-				FileNo: b.File, Line: line, Exempt: b.Encl.exemptTONL()})
+			inst := UseSiteInst{Site: st, Tag: tag, Kind: kind, Type: typ, Block: bi, Ord: ord,
+				FileNo: b.File, Line: line, Exempt: b.Encl.exemptTONL()}
+			if st != nil {
+				inst.Refs = st.Refs
+			}
+			perFile[b.File] = append(perFile[b.File], inst)
 		}
 		switch b.Encl {
 		case UEPlain:
@@ -545,7 +572,11 @@ func RenderUse(s *UseSpec) *UseRendered {
 				continue
 			}
 			pre(w, "\t")
-			ln := w.add("\t" + subst(st.Stmt))
+			text := "\t" + subst(st.Stmt)
+			if ord == 0 && b.Trail != "" {
+				text += " " + b.Trail
+			}
+			ln := w.add(text)
 			rec(st, st.Tag, st.Kind, st.Type, ord, ln)
 		}
 		if b.Encl == UEPkgVar {
@@ -593,43 +624,41 @@ func ExpectUse(fam string, s *UseSpec, rd *UseRendered) [][]string {
 		if si.FileNo == 2 { // _test.go: excluded under the default configuration
 			continue
 		}
-		if s.Mix.Skip&itemOf(si.Kind, si.Type, si.Tag) != 0 {
-			continue // the item carries no annotation
+		refs := si.Refs
+		if len(refs) == 0 {
+			refs = []UseRef{{Kind: si.Kind, Type: si.Type, Tag: si.Tag}}
 		}
-		switch fam {
-		case "TONL":
-			if !s.Mix.TestOnly || si.Exempt {
-				continue
+		for _, ref := range refs {
+			if s.Mix.Skip&itemOf(ref.Kind, ref.Type, ref.Tag) != 0 {
+				continue // the item carries no annotation
 			}
-			switch si.Kind {
-			case UKFunc:
-				exp[i] = []string{"TONL02"}
-			case UKMethod:
-				exp[i] = []string{"TONL03"}
-			case UKType:
-				k := si.File + "|" + si.Type
-				if !seen[k] {
-					seen[k] = true
-					exp[i] = []string{"TONL01"}
+			var pre string
+			switch fam {
+			case "TONL":
+				if !s.Mix.TestOnly || si.Exempt {
+					continue
 				}
+				pre = "TONL"
+			case "PKGO":
+				if Allowed(s.Pkg, s.Mix.Allow) {
+					continue
+				}
+				pre = "PKGO"
 			}
-		case "PKGO":
-			if Allowed(s.Pkg, s.Mix.Allow) {
-				continue
-			}
-			switch si.Kind {
+			switch ref.Kind {
 			case UKFunc:
-				exp[i] = []string{"PKGO02"}
+				exp[i] = append(exp[i], pre+"02")
 			case UKMethod:
-				exp[i] = []string{"PKGO03"}
+				exp[i] = append(exp[i], pre+"03")
 			case UKType:
-				k := si.File + "|" + si.Type
+				k := si.File + "|" + ref.Type
 				if !seen[k] {
 					seen[k] = true
-					exp[i] = []string{"PKGO01"}
+					exp[i] = append(exp[i], pre+"01")
 				}
 			}
 		}
+		sort.Strings(exp[i])
 	}
 	return exp
 }
